@@ -637,10 +637,26 @@ mod detail {
         ops: &[FlatOp<T>],
         nodes: &[FlatNode<T>],
     ) -> ExprIdxVec {
+        // Executing a commutative operator between two numbers earlier is only valid if it does
+        // not overtake a different operator of the same priority on its left, e.g., `10-2+3` with
+        // equal priorities of `-` and `+`, and if its result is not passed to a unary operator
+        // that belongs to the whole expression in parentheses, e.g., `sin(x+3+2)`.
+        let is_reorderable = |bin_op_idx: usize| {
+            let op = &ops[bin_op_idx];
+            op.unary_op.len() == 0
+                && ops[..bin_op_idx]
+                    .iter()
+                    .rev()
+                    .find(|left| left.bin_op.op.prio <= op.bin_op.op.prio)
+                    .map(|left| {
+                        left.bin_op.op.prio < op.bin_op.op.prio || left.bin_op.idx == op.bin_op.idx
+                    })
+                    .unwrap_or(true)
+        };
         let prio_increase =
             |bin_op_idx: usize| match (&nodes[bin_op_idx].kind, &nodes[bin_op_idx + 1].kind) {
                 (FlatNodeKind::Num(_), FlatNodeKind::Num(_))
-                    if ops[bin_op_idx].bin_op.op.is_commutative =>
+                    if ops[bin_op_idx].bin_op.op.is_commutative && is_reorderable(bin_op_idx) =>
                 {
                     let prio_inc = 5;
                     &ops[bin_op_idx].bin_op.op.prio * 10 + prio_inc
